@@ -50,8 +50,8 @@ PROPS = {
         'assumptions': ['texts in which the whitespace tag header begins before the appended tag are excluded (known finding)'],
     },
     'C02': {
-        'level_text': "Theorems on the symbolic data-message machine for all states and all messages: acceptance implies every prescribed check (parse, key-id window, MAC with the pair's receiving key over exactly the fields present, counter above the stored one); the MAC covers every authenticated field; byte-level theorem that the authenticated range is exactly the bytes before the authenticator. The machine is the one the scenario correspondence runs against the Go code every run (mutation catalogue over all fields).",
-        'level_note': 'Unforgeability of HMAC-SHA1 is assumed (a forger without the key cannot produce Mac(key, fields)); correspondence is differential.',
+        'level_text': "Theorems: C02_only_authentic_text_is_delivered - for EVERY call of EVERY history on a conversation (any input) a text comes out of Receive only as a plaintext message passed on with the received-unencrypted event whenever encryption was due, or as the text of a data message that arrived while the conversation was encrypted, is well-formed, names key ids inside the window, carries a MAC verifying under the receiving key of exactly that pair over every field, and a counter above the recorded one; no key-exchange message, no rejected / unparsable data message and no user call returns a text (Proto/Delivery.v). On the data-message machine for all states and messages: acceptance implies every prescribed check; the MAC covers every authenticated field; byte-level: the authenticated range is exactly the bytes before the authenticator. Every run: the mutation catalogue over all fields of in-flight messages at 0-6 rotations, plaintext injection for every way a session can be opened, compared with the machine; oracle: every text returned while encrypted was sent by the peer in this session or is flagged unencrypted.",
+        'level_note': 'that only the peer can produce a MAC under the session keys (unforgeability of HMAC-SHA1, secrecy of the D-H secret) is the symbolic idealisation; that the accepted text is byte-identical to what the peer passed to Send is C04 (two-party theorem) plus the correspondence.',
         'trusted': ['the conversation model is symbolic: DH values are exponent ids, shared secrets unordered pairs, keys (secret, role) terms, a MAC verifies iff it was computed with the same key over the same fields (perfect-cryptography idealisation)', 'internal projections (key ids, list lengths, state names) are read through the verif-tagged hook VerifSnapshot'],
         'assumptions': ['EUF-CMA of HMAC-SHA1; injectivity of the key derivation'],
         'targets': ['Corr/Dispatch.vo', 'Proto/Run.vo'],
